@@ -38,4 +38,29 @@ META = {
   "note": "Tie semantics (several Primary / several unnamed) accepted within the tied set only.",
   "technique": "property-based testing (rapid): per-field reference model of qualifier/Primary narrowing",
  },
+
+ "C03": {
+  "text": "Generated wrap plans (early reference / before / after initialization; fresh or repeated wrapper) on components consumed through interfaces, over random rich and pure digraphs (with programmatic lookups from Init callbacks that shift when an early reference is requested) and exhaustively over every digraph on 2 pure nodes and selected 3-node shapes x all creation orders x all 12^n plans. Oracle: a successful start shows one version per component to every holder and to the by-name lookup; failure is always admissible, the evidence reports the split.",
+  "design_ref": "DESIGN.md section 4, C03",
+  "note": "Known finding C03/retry-after-refused-lazy-creation is excluded by construction (no lookup after a refused lazy creation) and re-confirmed by a fixed witness on every run.",
+  "technique": "property-based testing + exhaustive enumeration of wrap plans on small cycles; version-uniqueness invariant",
+ },
+ "C04": {
+  "text": "A rapid state machine drives the real SingletonComponentRegistry with exactly the operations the factory's lookup protocol can issue (nested creations to depth 4 over 4 names, early-reference factories that may wrap or fail, lookups with/without early references, failing creations, lookups after failures) and compares every observable with a per-name model after each step; the same invariants are evaluated over call histories traced from real starts with injected Init/AfterPropertiesSet faults, followed by GetComponentByName of each failed name.",
+  "design_ref": "DESIGN.md section 4, C04",
+  "note": "The tracer wraps the real registry through the verif hook; model and script generator are the trusted base.",
+  "technique": "stateful model-based property testing (rapid state machine) + history invariant checking on traced real executions",
+ },
+ "C05": {
+  "text": "Generated dependency graphs (dense rich family and thinned pure family: DAGs, diamonds, cycles with tails), lazy/eager mixes and 0-3 observing post-processors (unordered / ordered, before and after the built-in ones); an event log written by the components' own callbacks and the observers is checked per component for the exact pass before* < AfterPropertiesSet < Init < after*, for nothing being populated later than the first callback, for dependencies-first over the observed edges, and for lazy components being initialised iff held.",
+  "design_ref": "DESIGN.md section 4, C05",
+  "note": "Observers are dependency-free; 'depends back' is computed on observed edges.",
+  "technique": "property-based testing (rapid): event-log invariants over generated graphs",
+ },
+ "C09": {
+  "text": "For each generated base scenario that the model says starts, every fault site is enumerated (each Init/AfterPropertiesSet, each post-processor callback on each component, each loader, each runner, each required component point made unsatisfiable, each required configuration key removed) and injected one at a time (thorough: also in pairs). Oracle: a fault that fired before the runner phase => Run returns an error without panic and no runner ran; nothing fired => clean start with unsatisfied optional points left zero.",
+  "design_ref": "DESIGN.md section 4, C09",
+  "note": "Whether a callback fault fired is recorded by the harness instrumentation; structural faults are judged by the reference model.",
+  "technique": "fault enumeration over generated scenarios (rapid) with fired-fault oracle",
+ },
 }
